@@ -17,12 +17,17 @@ def shard(acc, prop, tier, seed, shard_i, nshards, factory, weights, quick, thor
                post_hook=post_hook, post_every=post_every[0] if tier == "quick" else post_every[1])
 
 
+MARGINS = {}
+
+
 def need(acc, msgs, name, n):
+    MARGINS[name] = (acc.counters.get(name, 0), n)
     if acc.counters.get(name, 0) < n:
         msgs.append("%s = %d < %d" % (name, acc.counters.get(name, 0), n))
 
 
 def need_prefix(acc, msgs, prefix, n, suffix=""):
     tot = sum(v for k, v in acc.counters.items() if k.startswith(prefix) and k.endswith(suffix))
+    MARGINS[prefix + "*" + suffix] = (tot, n)
     if tot < n:
         msgs.append("%s*%s = %d < %d" % (prefix, suffix, tot, n))
